@@ -30,6 +30,9 @@ TRUSTED = ["harness/extractors/nll.py (python ast -> ESR.NLL.Cls); mitigated by 
 ASSUMPTIONS = ["data vectors and the prediction have one common length (or the prediction is a scalar) in the theorems; other shapes are covered by correspondence only",
                "formula theorems assume sigma > 0 (ln sigma), finite data, finite predictions (positive for Poisson, non-negative for CC/Mock)",
                "an imaginary part that underflows to 0 inside np.sqrt (e.g. sqrt(1e300+1e-300j)) counts as rounding, not modelled"]
+# tables whose committed version may stand in as a hand-written model when the translator cannot read the source;
+# value = the correspondence that then ties it to the code (common.prove / common.decide)
+FALLBACK = {'NLL': 'the Lean interpreter of the committed likelihood programs vs the real negloglike/get_pred of every class on PRNG data incl. NaN/inf/complex/exception cases'}
 MODELLED = ["likelihood.py:Likelihood.get_pred", "likelihood.py:CCLikelihood.get_pred", "likelihood.py:MockLikelihood.get_pred",
             "likelihood.py:CCLikelihood.negloglike", "likelihood.py:MockLikelihood.negloglike", "likelihood.py:MSE.negloglike",
             "likelihood.py:GaussLikelihood.negloglike", "likelihood.py:PoissonLikelihood.negloglike"]
